@@ -78,12 +78,10 @@ def sign_run(toks):
 
 
 def categorize(toks, kind, style=None):
-    if style == 'tab':
-        return 'tab-as-whitespace'
-    if style == 'nl':
-        return 'newline-as-whitespace'
     if any(a == '%' and b == '%' for a, b in zip(toks, toks[1:])):
         return 'double-percent'
+    if style == 'nl':
+        return 'newline-as-whitespace'
     if sign_run(toks) and '^' in toks and kind in ('value',):
         return 'sign-run-next-to-power'
     if sign_run(toks) and '"s"' in toks and kind in ('value',):
